@@ -1,4 +1,7 @@
 import LitexProofs.Cdc.AsyncFifo
+import LitexProofs.Cdc.BusSync
+import LitexProofs.Cdc.Reset
+import LitexProofs.Cdc.PulseSync
 /-
   C05 — Clock-domain crossings never corrupt, drop, duplicate or reorder data.
 
@@ -163,6 +166,156 @@ theorem afifo_eventually_readable_buffered (k : Nat) (z : α) (hk : 1 ≤ k) (x 
   rcases hp with hv | hd'
   · right; simpa [srcValid] using hv
   · left; exact hd'
+
+
+/-! ### BusSynchronizer (`litex/gen/genlib/cdc.py`)
+
+  Schedules are `List BSIn`: per instant which of the two clocks tick (`ti`, `tO`), how the first flop of the
+  request, acknowledge and data synchronisers resolves if its source changes in that instant (`mPing`, `mPong`,
+  `mBuf` per bit), and the word on `i`.
+
+  Full statement (false, see the negative witness below):
+    ∀ w t ins, (bsRun w t (bsInit t) ins).o ∈ 0 :: (bsInputs ins).map (· % 2 ^ w)
+  It holds whenever the retry timer does not expire spuriously (`NoTimeout`), and that is guaranteed by a bound
+  on the clock drift together with a long enough time-out. -/
+
+/-- **bussync_coherent_partial.**  As long as the retry timer never expires, every word shown on `o` is the
+    reset value or a word that was present on `i` at one i-clock edge — never a bit-wise mixture — for every
+    interleaving of the clocks and every per-bit resolution of all three synchronisers. -/
+theorem bussync_coherent_partial (w t : Nat) (ins : List BSIn) (h : NoTimeout w t (bsInit t) ins) :
+    (bsRun w t (bsInit t) ins).o ∈ 0 :: (bsInputs ins).map (· % 2 ^ w) := by
+  simpa using bsInv_run w t ins (bsInit t) [0] (bsInv_init t) h
+
+/-- **bussync_no_spurious_timeout.**  If the i clock never has more than `R` consecutive edges without an
+    o-clock edge (i up to `R+1` times faster than o; no assumption in the other direction) and the time-out is
+    at least `4R + 7` i-cycles, the timer never expires.  (`R = 1..3` with the default `t = 128` qualify.) -/
+theorem bussync_no_spurious_timeout (w t R : Nat) (ht : 4 * R + 7 ≤ t) (ins : List BSIn)
+    (hb : IBurst R 0 ins) : NoTimeout w t (bsInit t) ins :=
+  noTimeout_of_burst w t R ht ins _ _ (tInv_init t R ht) hb
+
+/-- The property as stated: bounded drift and a time-out longer than the round trip give coherence. -/
+theorem bussync_coherent_of_ratio (w t R : Nat) (ht : 4 * R + 7 ≤ t) (ins : List BSIn)
+    (hb : IBurst R 0 ins) :
+    (bsRun w t (bsInit t) ins).o ∈ 0 :: (bsInputs ins).map (· % 2 ^ w) :=
+  bussync_coherent_partial w t ins (bussync_no_spurious_timeout w t R ht ins hb)
+
+/-- Non-vacuity: a schedule with drift bound `R = 1`, time-out 11, on which a word really crosses
+    (`i = 2` is loaded into `ibuffer` and appears on `o`). -/
+example :
+    let e : Nat → BSIn := fun v => ⟨true, true, true, true, 3, v⟩
+    let ins := List.replicate 20 (e 2)
+    IBurst 1 0 ins ∧ (bsRun 2 11 (bsInit 11) ins).o = 2 := by decide
+
+/-- **Negative witness** for the region excluded by the hypothesis (`t = 1`: the retry time-out is shorter than
+    one request/acknowledge round trip).  Requests are re-sent while one is in flight; `ibuffer` is reloaded
+    (0 → 3) in the very instant in which the output side samples it for the word it shows next, and `o`
+    becomes 1 although `i` only ever carried 0 and 3.  The same schedule is replayed on the real module on every
+    run (`corpus/C05/bussync_t1_incoherent.json`). -/
+example :
+    let ins : List BSIn :=
+      [⟨true, true, true, false, 0, 0⟩, ⟨false, true, false, false, 0, 0⟩, ⟨false, true, false, false, 0, 0⟩,
+       ⟨true, true, false, true, 0, 0⟩, ⟨true, true, true, false, 0, 0⟩, ⟨true, true, false, false, 1, 3⟩,
+       ⟨false, true, false, false, 0, 0⟩, ⟨false, true, false, false, 0, 0⟩]
+    ¬ ((bsRun 2 1 (bsInit 1) ins).o ∈ 0 :: (bsInputs ins).map (· % 2 ^ 2)) ∧
+      ¬ NoTimeout 2 1 (bsInit 1) ins := by
+  decide
+
+/-- **bussync_width1.**  With `width = 1` the module is a bare two-flop `MultiReg`: `o` is the reset value or
+    the value `i` had at an earlier o-clock edge; a single bit cannot be torn. -/
+theorem bussync_width1 (ins : List (Bool × Bool)) :
+    (ins.foldl (fun s x => bs1Step s x.1 x.2) ⟨false, false⟩).r2 ∈
+      false :: (ins.filter (·.1)).map (·.2) := by
+  suffices h : ∀ (s : BS1State) (L : List Bool), s.r1 ∈ L → s.r2 ∈ L →
+      (ins.foldl (fun s x => bs1Step s x.1 x.2) s).r2 ∈ L ++ (ins.filter (·.1)).map (·.2) by
+    simpa using h ⟨false, false⟩ [false] (by simp) (by simp)
+  induction ins with
+  | nil => intro s L _ h2; simpa using h2
+  | cons x xs ih =>
+    intro s L h1 h2
+    obtain ⟨tO, i⟩ := x
+    cases tO
+    · simpa [bs1Step] using ih s L h1 h2
+    · have := ih (bs1Step s true i) (L ++ [i]) (by simp [bs1Step]) (by simp [bs1Step, h1])
+      simpa [List.append_assoc] using this
+
+/-! ### PulseSynchronizer (used by `stream.Monitor` for its reset/latch pulses, and inside BusSynchronizer) -/
+
+/-- For every schedule and resolution: the synchroniser never invents a pulse (output pulses so far plus toggles
+    still in the chain never exceed the input pulses). -/
+theorem pulsesync_no_spurious (ins : List PSIn) :
+    psSeen psInit ins + psFlight (psRun psInit ins) ≤ psSent ins := by
+  simpa [psFlight, psInit] using ps_seen_le ins psInit
+
+/-- **pulsesync_partial.**  If every input pulse comes only after the previous one was caught by the first
+    flop (`PSpaced`; implied by "separated by ≥ 3 destination edges"), every pulse is delivered exactly once:
+    input pulses = output pulses + toggles in flight, at most 3 in flight, and none in flight after three
+    o-clock edges without a new pulse (`ps_drain`).
+    Full statement without the spacing hypothesis is false: two pulses between two o-clock edges cancel. -/
+theorem pulsesync_partial (ins : List PSIn) (h : PSpaced false ins) :
+    psSent ins = psSeen psInit ins + psFlight (psRun psInit ins) ∧ psFlight (psRun psInit ins) ≤ 3 := by
+  refine ⟨?_, psFlight_le _⟩
+  have := ps_seen_eq ins psInit false (by simp [psInit]) h
+  simpa [psFlight, psInit] using this.symm
+
+/-- Draining: three o-clock edges without a new input pulse empty the chain. -/
+theorem pulsesync_drain (s : PSState) (x1 x2 x3 : PSIn) (h1 : x1.tO = true ∧ (x1.ti && x1.i) = false)
+    (h2 : x2.tO = true ∧ (x2.ti && x2.i) = false) (h3 : x3.tO = true ∧ (x3.ti && x3.i) = false) :
+    psFlight (psStep (psStep (psStep s x1) x2) x3) = 0 := ps_drain s x1 x2 x3 h1 h2 h3
+
+/-- Negative witness: two input pulses with no o-clock edge in between are both lost. -/
+example :
+    let ins : List PSIn := [⟨true, false, false, true⟩, ⟨true, false, false, true⟩,
+                            ⟨false, true, false, false⟩, ⟨false, true, false, false⟩, ⟨false, true, false, false⟩]
+    psSent ins = 2 ∧ psSeen psInit ins = 0 ∧ psFlight (psRun psInit ins) = 0 := by decide
+
+/-! ### Common reset (`ClockDomainCrossing(with_common_rst=True)`)
+
+  `runRst` runs instants in which the common reset (`ResetSignal(cd_from) | ResetSignal(cd_to)`) is high;
+  `afStepR … false = afStep` (`afStepR_false`), so everything above applies between resets. -/
+
+/-- **cdc_common_rst_inv.**  From ANY state `s` (reachable or not — e.g. in the middle of traffic): if the common
+    reset is held while each clock has one edge (`x`) and then two more edges each (`y`) — in any interleaving and
+    with any resolution of the synchroniser flops, which are reset-less and keep sampling — the FIFO is exactly in
+    its initial state (only the reset-less output register of the buffered variant keeps a stale word, with
+    `valid` low). -/
+theorem cdc_common_rst_inv (k : Nat) (b : Bool) (z : α) (s : AFState α) (x y : List (AFIn α))
+    (hx : 1 ≤ writeTicks x ∧ 1 ≤ readTicks x) (hy : 2 ≤ writeTicks y ∧ 2 ≤ readTicks y) :
+    runRst k b z s (x ++ y) = { afInit k z with bdat := (runRst k b z s (x ++ y)).bdat } := by
+  rw [runRst_append]
+  obtain ⟨hw, hr⟩ := rst_zero k b z x s (Or.inl hx.1) (Or.inl hx.2)
+  obtain ⟨⟨hw', hr'⟩, hp, hc⟩ := rst_flush k b z y _ hw hr
+  obtain ⟨p1, p2⟩ := hp (Or.inr (Or.inr hy.2))
+  obtain ⟨c1, c2⟩ := hc (Or.inr (Or.inr hy.1))
+  obtain ⟨w1, w2, w3⟩ := hw'
+  obtain ⟨r1, r2, r3, r4⟩ := hr'
+  generalize runRst k b z (runRst k b z s x) y = e at *
+  cases e
+  simp_all [afInit]
+
+/-- … hence after such a reset the crossing again delivers exactly the tokens accepted after the reset, in
+    order, for every continuation. -/
+theorem cdc_common_rst_token_rel (k : Nat) (b : Bool) (z : α) (hk : 1 ≤ k) (s : AFState α)
+    (x y ins : List (AFIn α))
+    (hx : 1 ≤ writeTicks x ∧ 1 ≤ readTicks x) (hy : 2 ≤ writeTicks y ∧ 2 ≤ readTicks y) :
+    delivered k b z (runRst k b z s (x ++ y)) ins <+: accepted k b z (runRst k b z s (x ++ y)) ins := by
+  have hi := rst_inv k b z x y s hx hy
+  have hd := del_run k b z hk ins _ _ hi
+  have ha := acc_run k b z ins (runRst k b z s (x ++ y)) gInit
+  simp only [gInit, List.nil_append, List.take_nil] at hd ha
+  rw [← hd, ha]
+  exact List.take_prefix _ _
+
+/-- Negative witness: a reset pulse lasting a single coincident edge leaves the old produce pointer in the
+    reset-less synchroniser flops; `source.valid` rises and a word is handed over although nothing has been
+    accepted since the reset.  (Replayed on the real module, which uses the simulator's combinational stand-in
+    for `AsyncResetSynchronizer`; a real reset synchroniser stretches the pulse.) -/
+example :
+    let w (d : Nat) : AFIn Nat := ⟨true, false, 0, 0, true, d, false⟩
+    let r : AFIn Nat := ⟨false, true, 0, 0, false, 0, true⟩
+    let s1 := runFrom 2 false 0 (afInit 2 0) [w 5, w 6, ⟨false, true, 0, 0, false, 0, false⟩,
+                                               ⟨false, true, 0, 0, false, 0, false⟩]
+    let s2 := runRst 2 false 0 s1 [⟨true, true, 0, 0, false, 0, false⟩]
+    accepted 2 false 0 s2 [r] = [] ∧ delivered 2 false 0 s2 [r] = [0] := by decide
 
 /-! ### Non-vacuity: a concrete schedule with coincident edges and both resolutions, on which tokens move -/
 
